@@ -208,8 +208,10 @@ class Operation(ABC):
                 backed_grad = np.array(backed_grad, copy=False)
 
             if self.where is not True:
-                # the product of 0-d arrays is a numpy scalar, not an array
-                backed_grad = np.asarray(backed_grad * self.where)
+                # Select, rather than multiply by the mask: where the operation
+                # was not applied its derivative may be inf/nan (e.g. log at 0),
+                # and nothing is to be propagated there
+                backed_grad = np.where(self.where, backed_grad, 0)
 
             backed_grad = self.grad_post_process_fn(backed_grad, var.shape)
             assert backed_grad.shape == var.shape, (backed_grad.shape, var.shape)
